@@ -1003,7 +1003,7 @@ PROP = Property(
     id="C03",
     title="Linked attributes are reachable exactly through links and carry composed values",
     theorems=["C03.discover_terminates", "C03.discover_reachable", "C03.discover_depth_min", "C03.discover_value",
-              "C03.spec_local_implies_composed", "C03.specDepth_reachable", "C03.manager_inv", "C03.manager_reads", "C03.derived_reads_internal",
+              "C03.spec_local_implies_composed", "C03.specDepth_reachable", "C03.manager_inv", "C03.manager_inv_noRemove_unconditional", "C03.manager_reads", "C03.derived_reads_internal",
               "C03.selection_via_links", "C03.manager_no_dangling", "C03.removal_forgets",
               "C03.list_op_raising_midway_synced"],
     families=[Structured(), Shapes(), Derived(), Histories()],
@@ -1012,7 +1012,7 @@ PROP = Property(
                   "numpy integer/float arithmetic on small integers is exact"],
     assumptions=["link functions are the generated integer affine / two-input linear maps; datasets have no world coordinates "
                  "and no key joins; internal derived attributes are defined by links without inverse",
-                 "manager_inv / manager_no_dangling: well-formed histories (runWf); value clauses of manager_reads / "
+                 "manager_inv / manager_no_dangling: well-formed histories (runWf) - manager_inv_noRemove_unconditional drops runWf for every history without DataCollection.remove; value clauses of manager_reads / "
                  "selection_via_links: internalFirst (the oracle itself covers all generated histories)"],
     rule="exhaustive: all sequences of <=2 (thorough <=3) links of four kinds over a 5-cid pool; chains/cycles/diamonds/multi-input/"
          "duplicate/inverse/link-helper structures with every single removal; internal derived attributes (depth 1 and 2, two-input, "
